@@ -495,7 +495,9 @@ class Message(FixSerializable):
 
     @staticmethod
     def get_msg_type(bytes_: bytes) -> str:
-        start = bytes_.find(b'35=') + 2
+        # the MsgType field starts the message or follows a field separator: '35=' at the end of
+        # another tag (135=...) or inside a value (8=a35=b) is not it
+        start = 2 if bytes_.startswith(b'35=') else bytes_.find(SOH + b'35=') + 3
         end = bytes_.find(SOH, start)
         return bytes_[start+1:end].decode('ascii')
 
